@@ -1205,6 +1205,12 @@ class RawAlgorithmsMixIn:
 
         (xbar_data, ybar_data) = out
 
+        # a vector operand is a one-row resp. one-column matrix (views)
+        if x_data.ndim == 3:
+            x_data, xbar_data, zbar_data = x_data[:,:,numpy.newaxis,:], xbar_data[:,:,numpy.newaxis,:], zbar_data[:,:,numpy.newaxis,...]
+        if y_data.ndim == 3:
+            y_data, ybar_data, zbar_data = y_data[...,numpy.newaxis], ybar_data[...,numpy.newaxis], zbar_data[...,numpy.newaxis]
+
         xbar_data += cls._dot(zbar_data, cls._transpose(y_data), out = xbar_data.copy())
         ybar_data += cls._dot(cls._transpose(x_data), zbar_data, out = ybar_data.copy())
 
